@@ -22,6 +22,7 @@ func init() {
 }
 
 func runC04(c *Ctx) {
+	defer ruleValidLenAfterBody(c, "C04.23")
 	c.Rule("C04.1", "the data file is written only by (*os.File).WriteAt calls that sit inside the exclusive section of the flush (or are reached only from it / from CREATE DATABASE before the database exists): the only torn state a crash can leave is a torn flush")
 	checkDataFileWrites(c, "C04.1")
 	c04FlushOrder(c, "C04.2")
